@@ -344,8 +344,70 @@ fn flush_prefix_part(res: &mut PartResult) {
     res.sample(json!({"prefix": "ab", "name": "abc", "expected_on_the_wire": "ab.abc"}));
 }
 
+/// The limit as the user configures it: exporters built through the public builder with
+/// `with_maximum_payload_length(n)` for n from 0 upward, given before or after the address, sending to a unix datagram
+/// socket. No datagram is longer than n (for n = 0 and every n below the shortest message: nothing is sent at all), every
+/// datagram is a sequence of whole messages, and once n is comfortably large the metrics arrive.
+fn builder_limit_part(ctx: &Ctx, res: &mut PartResult) {
+    use metrics::Recorder;
+    static META: metrics::Metadata<'static> = metrics::Metadata::new("t", metrics::Level::INFO, None);
+    res.engine = "E4 exporters built through the public builder x payload limits, datagrams read from the agent's socket".into();
+    let mut states = vseq::States::new();
+    let dir = ctx.run_dir();
+    let limits: [usize; 9] = [0, 1, 10, 25, 26, 27, 64, 200, 8192];
+    for (li, limit) in limits.iter().enumerate() {
+        let limit = *limit;
+        let got = vcore::dsd::run_exporter(
+            &dir,
+            &format!("c09-limit-{}", li),
+            |b| b.with_maximum_payload_length(limit).map_err(|e| format!("with_maximum_payload_length({}): {}", limit, e)),
+            |rec| {
+                rec.register_counter(&Key::from_parts("requests", vec![Label::new("route", "index")]), &META).increment(3);
+                rec.register_gauge(&Key::from_name("g"), &META).set(1.5);
+                let h = rec.register_histogram(&Key::from_name("h"), &META);
+                h.record(1.0);
+                h.record(2.0);
+            },
+            std::time::Duration::from_millis(if limit < 64 { 350 } else { 3000 }),
+            |got| limit >= 64 && got.iter().any(|d| d.starts_with(b"requests:3|c")),
+        );
+        res.executions += 1;
+        res.transitions += 4;
+        let cfg = json!({"builder_limit": limit});
+        let got = match got {
+            Ok(g) => g,
+            Err(e) if e.starts_with("machinery") => {
+                res.error = Some(e);
+                return;
+            }
+            Err(e) => {
+                res.violation("documented-limit-rejected", format!("limit {}: {}", limit, e), cfg);
+                continue;
+            }
+        };
+        states.add(&(limit, got.is_empty()));
+        if let Some(d) = got.iter().find(|d| d.len() > limit) {
+            res.violation("payload-exceeds-limit", format!("the exporter was built with with_maximum_payload_length({}), yet the agent socket received a datagram of {} bytes: {:?}", limit, d.len(), String::from_utf8_lossy(d)), cfg.clone());
+            continue;
+        }
+        for d in &got {
+            for line in d.split_inclusive(|b| *b == b'\n') {
+                if let Err(e) = statsd::parse_message(line) {
+                    res.violation("payload-not-a-message", format!("limit {}: datagram {:?}: {}", limit, String::from_utf8_lossy(d), e), cfg.clone());
+                }
+            }
+        }
+        if limit >= 64 && !got.iter().any(|d| d.starts_with(b"requests:3|c|#route:index\n") || d.windows(26).any(|w| w == b"requests:3|c|#route:index\n")) {
+            res.violation("point-lost-without-being-reported", format!("limit {}: the counter message (26 bytes) never arrived; received {:?}", limit, got.iter().map(|d| String::from_utf8_lossy(d).to_string()).collect::<Vec<_>>()), cfg.clone());
+        }
+    }
+    res.states = states.len();
+    res.distinct_outcomes = states.len();
+    res.sample(json!({"limit": 0, "expected": "no datagram at all"}));
+}
+
 fn parts(ctx: &Ctx) -> Vec<PartSpec> {
-    let mut v = vec![PartSpec::new("e3-state-flush-prefix-x-name", json!({"flush_prefix": true}))];
+    let mut v = vec![PartSpec::new("e3-state-flush-prefix-x-name", json!({"flush_prefix": true})), PartSpec::new("e4-builder-payload-limits", json!({"builder_limit": true})).budget(120.0)];
     let depth = if ctx.quick() { 3 } else { 4 };
     for lp in [false, true] {
         for (pi, _) in [None, Some("p"), Some("pre")].iter().enumerate() {
@@ -362,6 +424,10 @@ fn parts(ctx: &Ctx) -> Vec<PartSpec> {
 
 fn run(ctx: &Ctx, spec: &PartSpec) -> PartResult {
     let mut res = PartResult::new(&spec.name, "");
+    if spec.arg["builder_limit"].as_bool() == Some(true) {
+        builder_limit_part(ctx, &mut res);
+        return res;
+    }
     if spec.arg["flush_prefix"].as_bool() == Some(true) {
         flush_prefix_part(&mut res);
         return res;
@@ -375,7 +441,7 @@ fn main() {
     driver::main(CheckDef {
         prop: "C09",
         level: "model_checking",
-        rule: "for every max_payload_len in {0..72 (thorough 0..260), boundary values around the longest payload, 8192} x length prefix {off,on} x prefix {None,p,pre} x global labels {[],[g:1]}: every sequence of the stated depth over 19 operations (counter/gauge with extreme values and optional timestamp, histogram/distribution with 0,1,2,3,40 values incl. NaN / +-inf / -0 / MAX / MIN_POSITIVE and optional sample rate, the same key with two different sample rates, names of length 0..12 and one of 20000 bytes, labels with empty value, drain) on one real PayloadWriter, plus a final drain, with a second, unrelated writer used before every operation (what it emits must equal what it emits when used alone); every drained payload is parsed by an independent DogStatsD parser and matched against the writes since the previous drain (name, type, tags, values in order at round-trip precision, length prefix, size limit, written/dropped accounting); plus, through State::flush (which chooses the prefix and labels a metric gets), every (prefix, name) pair over 6 prefixes incl. the empty one and 12 names that begin with / equal / contain the prefix text, for the three kinds; distinct = distinct (config class, drain shape) states",
+        rule: "for every max_payload_len in {0..72 (thorough 0..260), boundary values around the longest payload, 8192} x length prefix {off,on} x prefix {None,p,pre} x global labels {[],[g:1]}: every sequence of the stated depth over 19 operations (counter/gauge with extreme values and optional timestamp, histogram/distribution with 0,1,2,3,40 values incl. NaN / +-inf / -0 / MAX / MIN_POSITIVE and optional sample rate, the same key with two different sample rates, names of length 0..12 and one of 20000 bytes, labels with empty value, drain) on one real PayloadWriter, plus a final drain, with a second, unrelated writer used before every operation (what it emits must equal what it emits when used alone); every drained payload is parsed by an independent DogStatsD parser and matched against the writes since the previous drain (name, type, tags, values in order at round-trip precision, length prefix, size limit, written/dropped accounting); plus, through State::flush (which chooses the prefix and labels a metric gets), every (prefix, name) pair over 6 prefixes incl. the empty one and 12 names that begin with / equal / contain the prefix text, for the three kinds; distinct = distinct (config class, drain shape) states; plus exporters built through the public builder with with_maximum_payload_length(n), n in {0, 1, 10, 25, 26, 27, 64, 200, 8192}, sending to a unix datagram socket: no datagram longer than n, whole messages only, the metrics arrive once n allows",
         assumptions: &["strings in names/tags are benign (no ':' '|' ',' or newline): the DogStatsD protocol has no escaping and the property does not ask for any"],
         parts,
         run,
